@@ -12,8 +12,10 @@
       compared word by word, conditions compared over Nat), not by `rfl`: renamed locals, hoisted sub-expressions,
       reordered independent copies / fills, dead branches, `a < b` vs `b > a` do not break it.  A loop that counts the
       absorbed elements UP instead of the remaining ones DOWN is accepted too (`lh_countup`: the two loops are related by
-      `absorbed = size - remaining` under the invariant `remaining ≤ size`, `GenEquiv.whileM_map`).  A change of what a C++
-      function computes breaks these lemmas.
+      `absorbed = size - remaining` under the invariant `remaining ≤ size`, `GenEquiv.whileM_map`), and so is a loop whose
+      first-iteration action (clearing the capacity) was hoisted in front of it (`lh_first`: the bodies are compared on the
+      states satisfying `lhInv` — "nothing absorbed yet ⇒ the state is still zero" —, `GenEquiv.whileM_congr_inv`).  A change
+      of what a C++ function computes breaks these lemmas.
     * `lhGenG_spec`: for every region function `P` that acts on the first twelve words as a list function `perm`
       (`hP : ∀ s, toList (P s) 12 = perm (toList s 12)`), every input region, every 64-bit size and every fuel > size:
       the generated function returns, its four output words are `linearHash perm (the first size words of the input)`, and
@@ -111,6 +113,63 @@ macro "lh_countup " inv:term ", " stepG:ident : tactic =>
             · gen_equiv)
          | gen_equiv))
 
+/-- invariant of the reference loop: never more left than `size`, and as long as nothing has been absorbed
+    (`remaining = size`) the state is still the initial all-zero one -/
+def lhInv (size : BitVec 64) (t : Region × BitVec 64) : Prop :=
+  t.2.toNat ≤ size.toNat ∧ (t.2 = size → t.1 = Region.zero)
+
+theorem lhStepG_inv0 (P : Region → Region) (input : Region) (size : BitVec 64) (t : Region × BitVec 64) (b : Bool)
+    (t' : Region × BitVec 64) (ht : lhInv size t) (h : lhStepG P input size t = some (b, t')) : lhInv size t' := by
+  obtain ⟨h1, h2⟩ := ht
+  unfold lhStepG at h
+  dsimp only at h
+  split_ifs at h <;> cases h <;> first
+    | exact ⟨h1, h2⟩
+    | (refine ⟨?_, fun he => ?_⟩
+       · clear h2; dsimp only; ge_cond_norm; bv_omega
+       · clear h2; dsimp only at he; ge_contra)
+
+/-- a loop `F` from an initial state `s0` that IS the all-zero state (e.g. written as the zero state with its capacity part
+    cleared once more, before the loop) against the reference loop `G`: the bodies only have to agree on the states
+    satisfying `lhInv` (so a body that relies on "first iteration ⇒ the state is still zero" is accepted) -/
+theorem bind_whileM_first {size : BitVec 64}
+    {F G : Region × BitVec 64 → Option (Bool × (Region × BitVec 64))} {K K' : Region × BitVec 64 → Option Region} {fuel : Nat}
+    {s0 : Region} (h0 : s0 = Region.zero)
+    (hG : ∀ (t : Region × BitVec 64) (b : Bool) (t' : Region × BitVec 64), lhInv size t → G t = some (b, t') → lhInv size t')
+    (hfirst : F (Region.zero, size) = G (Region.zero, size))
+    (hstep : ∀ t : Region × BitVec 64, t.2.toNat ≤ size.toNat → ¬ t.2 = size → F t = G t)
+    (hK : ∀ t : Region × BitVec 64, K t = K' t) :
+    (Loop.whileM F fuel (s0, size)).bind K = (Loop.whileM G fuel (Region.zero, size)).bind K' := by
+  subst h0
+  have hs : ∀ t : Region × BitVec 64, lhInv size t → F t = G t := by
+    intro t ht
+    obtain ⟨s, r⟩ := t
+    obtain ⟨h1, h2⟩ := ht
+    by_cases he : r = size
+    · have hz : s = Region.zero := h2 he
+      rw [hz, he]
+      exact hfirst
+    · exact hstep (s, r) h1 he
+  rw [GenEquiv.whileM_congr_inv F G (lhInv size) hs hG fuel (Region.zero, size) ⟨Nat.le_refl _, fun _ => rfl⟩]
+  exact GenEquiv.optBind_congr rfl hK
+
+/-- the form with the first-iteration action hoisted out of the loop: the loop through `bind_whileM_first`; the step is
+    compared separately for the first iteration (state = zero, remaining = size) and for the later ones -/
+macro "lh_first " inv:term ", " stepG:ident : tactic =>
+  `(tactic| focus
+      (dsimp only
+       split_ifs <;> first
+         | ge_contra
+         | (refine bind_whileM_first ?_ (fun t b t' ht h => $inv t b t' ht h) ?_ (fun t h1 he => ?_) (fun t => ?_)
+            · gen_equiv
+            · delta $stepG
+              gen_equiv
+            · try dsimp only at h1 he
+              delta $stepG
+              gen_equiv
+            · gen_equiv)
+         | gen_equiv))
+
 theorem lh_seq_generic (fuel : Nat) (output input : Region) (size : BitVec 64) :
     Pos_linear_hash_seq fuel output input size = lhGenG Pos_hash_full_result_seq_al_state_input fuel output input size := by
   delta lhGenG
@@ -118,14 +177,18 @@ theorem lh_seq_generic (fuel : Nat) (output input : Region) (size : BitVec 64) :
   first
   | (delta lhStepG; gen_equiv)
   | lh_countup (lhStepG_inv Pos_hash_full_result_seq_al_state_input input size), lhStepG
+  | lh_first (lhStepG_inv0 Pos_hash_full_result_seq_al_state_input input size), lhStepG
 
 theorem lh_avx_generic (fuel : Nat) (output input : Region) (size : BitVec 64) :
     Pos_linear_hash fuel output input size = lhGenG Pos_hash_full_result_al_state_input fuel output input size := by
   delta lhGenG
   delta_prefix "Gen.LinearHashGen.Pos_linear_hash"
+  delta_prefix "Gen.Avx2Mat.load_avx"
+  delta_prefix "Gen.Avx2Mat.store_avx"
   first
   | (delta lhStepG; gen_equiv)
   | lh_countup (lhStepG_inv Pos_hash_full_result_al_state_input input size), lhStepG
+  | lh_first (lhStepG_inv0 Pos_hash_full_result_al_state_input input size), lhStepG
 
 /-! ### one block -/
 
